@@ -248,6 +248,10 @@ class SimulationBuilder:
                 self.add_default_group_entity(persons_ids, entity_class)
 
         if axes is not None:
+            for parallel_axes in axes:
+                for axis in parallel_axes:
+                    self.check_axis(axis)
+
             for axis in axes[0]:
                 self.add_parallel_axis(axis)
 
@@ -763,6 +767,22 @@ class SimulationBuilder:
     def get_roles(self, entity_name: str) -> Sequence[Role]:
         # Return empty array for the "persons" entity
         return self.axes_roles.get(entity_name, self.roles.get(entity_name, []))
+
+    def check_axis(self, axis: Axis) -> None:
+        """Refuse an axis over an unknown variable or over a period that cannot be read."""
+        path_in_json = ["axes", axis["name"]]
+
+        if axis["name"] not in self.variable_entities:
+            raise errors.SituationParsingError(
+                path_in_json,
+                f"You tried to expand over the variable '{axis['name']}', but it was not found in the loaded tax and benefit system.",
+                code=404,
+            )
+
+        try:
+            periods.period(axis.get("period", self.default_period))
+        except ValueError as e:
+            raise errors.SituationParsingError(path_in_json, e.args[0])
 
     def add_parallel_axis(self, axis: Axis) -> None:
         # All parallel axes have the same count and entity.
